@@ -1,9 +1,34 @@
 #!/usr/bin/env python3
-"""Builds /verif/seeded/<name>/meta.json from the seedcheck logs (/tmp/seed_summary*.log) and the
-sub-agent's meta.txt, and prints the table for DESIGN.md section 9.5."""
-import glob, json, os, re, sys
+"""Builds /verif/seeded/<name>/meta.json from the final seedcheck logs (every kept seeded change
+run against the final quick-tier checks) and the sub-agent's meta.txt, and prints the table for
+DESIGN.md section 9.5.  usage: seedmeta.py <log>..."""
+import json, os, re, sys
 
-logs = "".join(open(f).read() for f in sorted(glob.glob("/tmp/seed_summary*.log")) + ["/tmp/seed_first.log"] if os.path.exists(f))
+# seeded changes the checks did NOT catch when first run against them, and what was added
+STRENGTHENED = {
+    "C05-store-pseudo-carry": "C05 `far` harness (element indices up to 2^18: every lui/addi carry case of name[i])",
+    "C11-icache-uses-dcache-policy": "cache configuration plumbing harness `config` (C09/C11)",
+    "C16-memory-table-touches-replacement-state": "C16 `small` harness (real-dict memory, memory-table getter on real keys, cache snapshot)",
+    "C17-memory-table-unsorted": "C17 memory harness writes in ascending, descending and rotated order",
+    "C09-lhu-display-read-counted": "one-instruction cached programs for every load/store class (`prog1-*`)",
+    "C13-string-terminator-through-cache": "C13 reload texts with `.string` declarations and caches",
+    "C16-toy-svg-getter-mutates-shared-table": "snapshot of every module/class-level mutable table of the repository (symx/globalsnap.py)",
+    "C11-load-skips-icache-reset": "C11 `reload` harness: reload after a partial run, instruction cache compared with a fresh one",
+    "C08-stale-decode-during-ecall-drain": "producer / ecall / consumer sandwiches always in the quick tier",
+    "C07-silent-byte-read-adds-penalty": "C07 `penalty` harness (both caches, symbolic penalties, per-step cycle delta)",
+    "C05-half-preload-through-cache": "C05 layouts loaded into simulations with a data cache and read back through it",
+    "C07-x0-write-hides-older-producer": "producer / filler / consumer triples (the full interlock window) always in the quick tier",
+    "C09-sets-share-replacement-state": "reference post-state: untouched sets keep their replacement state",
+    "C16-cache-set-repr-memo": "C16 differential twin: inspected run vs a run on which no inspection function was ever called",
+    "C01-lhu-result-left-16-bit": "concrete twin of the register container's cell-type claim (symbolic counterexample was unconfirmable before)",
+    "C03-sh-bypasses-cache-in-five-stage": "cached program pairs: a store of every width onto a block made resident by the preceding access; memory compared as the program sees it",
+    "C05-string-content-quote-strip": "string declaration whose content starts and ends with a quote character",
+    "C17-table-memo-survives-reset": "C17 memory harness continues through reset / reload and the next write",
+    "C10-fill-prefers-empty-way": "C10 `fill` harness: which block a fill displaces (CacheSet inside the memory system, 2 and 4 ways)",
+    "C13-is-done-latched": "C13 reload harness with front-end queries (and no-op step/run) between loads and a run to completion afterwards",
+}
+
+logs = "".join(open(f).read() for f in sys.argv[1:] if os.path.exists(f))
 blocks = re.split(r"^== ", logs, flags=re.M)[1:]
 res = {}
 for b in blocks:
@@ -23,12 +48,13 @@ for b in blocks:
             if not mm:
                 break
             claims.append("%s @ %s" % (mm.group(1), mm.group(2)))
-        if m.group(3).strip() or int(m.group(2)):
-            d["checks"][m.group(1)] = {"violations": int(m.group(2)), "summary": m.group(3).strip(), "sample_claims": claims}
+        d["checks"][m.group(1)] = {"violations": int(m.group(2)), "summary": m.group(3).strip(), "sample_claims": claims}
 rows = []
 for name in sorted(os.listdir("/verif/seeded")):
     dirp = os.path.join("/verif/seeded", name)
     if not os.path.isdir(dirp) or name not in res:
+        if os.path.isdir(dirp):
+            print("no result for", name, file=sys.stderr)
         continue
     r = res[name]
     meta_txt = open(os.path.join(dirp, "meta.txt")).read().strip() if os.path.exists(os.path.join(dirp, "meta.txt")) else ""
@@ -48,11 +74,13 @@ for name in sorted(os.listdir("/verif/seeded")):
         "how_checks_were_run": "VERIF_REPO=<worktree with the patch applied> bin/check <id> --tier quick (the check imports and reads the repository from VERIF_REPO instead of /repo)",
         "caught_by": caught,
         "not_caught_by": missed,
+        "missed_at_first": name in STRENGTHENED,
+        "check_strengthened_with": STRENGTHENED.get(name),
     }
     with open(os.path.join(dirp, "meta.json"), "w") as f:
         json.dump(meta, f, indent=1)
     rows.append((name, caught, missed, r))
-print("| seeded change | needs | caught by (quick) | not caught by |")
+print("| seeded change | caught by (quick tier; number of VIOLATION lines) | not caught by | missed at first; added |")
 print("|---|---|---|---|")
 for name, caught, missed, r in rows:
-    print("| %s | see meta.json | %s | %s |" % (name, ", ".join("%s (%d)" % (c, r["checks"][c]["violations"]) for c in caught) or "-", ", ".join(missed) or "-"))
+    print("| %s | %s | %s | %s |" % (name, ", ".join("%s (%d)" % (c, r["checks"][c]["violations"]) for c in caught) or "-", ", ".join(missed) or "-", STRENGTHENED.get(name, "")))
